@@ -72,9 +72,9 @@ Proof.
       eapply hoare_mono; [|eapply hoare_assign]; [lia | reflexivity | |].
       * cbn [eval map opt_all]. rewrite Vr1, Vi, Er1, Er2, E1, E2. cbn [eval_bin]. reflexivity.
       * split.
-        -- rewrite val_upd_same. cbn [sum_upto]. unfold g at 2. destruct A1 as [_ V].
+        -- rewrite val_upd_same. cbn [sum_upto]. f_equal. unfold g. destruct A1 as [_ V].
            rewrite (V (v1, _)) by (cbn [fst In]; intuition congruence).
-           rewrite (V (v2, _)) by (cbn [fst In]; intuition congruence). rewrite Safe. reflexivity.
+           rewrite (V (v2, _)) by (cbn [fst In]; intuition congruence). rewrite <- Safe. reflexivity.
         -- eapply agree_trans; [apply agree_upd_fresh; right; left; reflexivity | exact A1].
     + split; [apply val_upd_same | apply agree_upd_fresh; right; left; reflexivity].
   - intros s' [sL [[Vr Ag] ->]]. set (sF := upd sL (i, []) (lb1 + Z.of_nat n * 1)).
@@ -136,12 +136,17 @@ Theorem matvec_sound_partial_ d i j r m v s :
   matvec_safe d i j r m v = true ->
   hoare 7 (matvec_apply d i j r m v) s (fun s2 => agree_except [i; j] s2 (matvec_sem d r m v s)).
 Proof.
-  intro Safe. unfold matvec_safe in Safe. repeat (apply andb_true_iff in Safe as [Safe ?H]).
-  unfold matvec_accept in Safe. apply andb_true_iff in Safe as [Nrm Nrv].
+  intro Safe. unfold matvec_safe, matvec_accept in Safe. repeat (apply andb_true_iff in Safe as [Safe ?H]).
   repeat match goal with H : negb (Nat.eqb _ _) = true |- _ => apply negb_true_iff in H; apply Nat.eqb_neq in H end.
-  rename H into Njv, H0 into Njm, H1 into Njr, H2 into Niv, H3 into Nim, H4 into Nir, H5 into Nij,
-         H6 into Hext, H7 into Lmv, H8 into Lrm.
-  apply Z.eqb_eq in Lmv, Lrm. apply Nat.eqb_eq in Hext.
+  repeat match goal with H : Z.eqb _ _ = true |- _ => apply Z.eqb_eq in H end.
+  repeat match goal with H : Nat.eqb _ _ = true |- _ => apply Nat.eqb_eq in H end.
+  assert (Nrm : r <> m) by assumption. assert (Nrv : r <> v) by assumption.
+  assert (Njv : j <> v) by assumption. assert (Njm : j <> m) by assumption. assert (Njr : j <> r) by assumption.
+  assert (Niv : i <> v) by assumption. assert (Nim : i <> m) by assumption. assert (Nir : i <> r) by assumption.
+  assert (Nij : i <> j) by assumption.
+  assert (Hext : extent (dim0 d v) = extent (dim1 d m)) by assumption.
+  assert (Lmv : fst (dim1 d m) = fst (dim0 d v)) by assumption.
+  assert (Lrm : fst (dim0 d r) = fst (dim0 d m)) by assumption.
   set (lbr := fst (dim0 d r)) in *. set (lbm := fst (dim0 d m)) in *. set (ubm := snd (dim0 d m)).
   set (lbm2 := fst (dim1 d m)) in *. set (lbv := fst (dim0 d v)) in *. set (ubv := snd (dim0 d v)).
   set (n := extent (dim0 d m)). set (nin := extent (dim1 d m)) in *.
@@ -171,45 +176,43 @@ Proof.
     set (Q := fun (q : nat) (sq : store) =>
                 val sq (r, [row]) = sum_upto g q /\ val sq (i, []) = row /\ bnd sq = bnd s2 /\
                 forall loc, fst loc <> j -> loc <> (r, [row]) -> val sq loc = val s2 loc).
-    eapply hoare_conseq; [|eapply hoare_mono; [|eapply (hoare_cons 4 1 _ [] s2 _ _)]]; [| lia | |].
-    3:{ intros s3 H3. apply hoare_nil. exact H3. }
-    2:{ change 4%nat with (S (S 2)). eapply (hoare_do 2 j _ _ _ _ s2 lbv ubv 1 Q); try reflexivity; [lia | |].
-        - (* one product *)
-          intros q sq Hq [Vr [Vi [Bq Lq]]]. rewrite Hnin in Hq.
-          set (s3 := upd sq (j, []) (lbv + Z.of_nat q * 1)).
-          assert (Vj3 : val s3 (j, []) = lbv + Z.of_nat q) by (unfold s3; rewrite val_upd_same; lia).
-          assert (Vi3 : val s3 (i, []) = row)
-            by (unfold s3; rewrite val_upd_other by (intro X; inversion X; congruence); exact Vi).
-          assert (Vr3 : val s3 (r, [row]) = sum_upto g q)
-            by (unfold s3; rewrite val_upd_other by (intro X; inversion X; congruence); exact Vr).
-          assert (Hop3 : forall (a : name) ix, a <> r -> a <> i -> a <> j -> val s3 (a, ix) = val s (a, ix)).
-          { intros a ix N1 N2 N3. unfold s3. rewrite val_upd_other by (intro X; inversion X; congruence).
-            rewrite Lq by (cbn [fst]; [congruence | intro X; inversion X; congruence]).
-            unfold s2. rewrite val_upd_other by (intro X; inversion X; congruence). apply Hop; assumption. }
-          eapply hoare_mono; [|eapply hoare_assign]; [lia | cbn [map eval opt_all]; rewrite Vi3; reflexivity | |].
-          + cbn [eval map opt_all]. rewrite Vi3, Vj3. cbn [opt_all]. rewrite Vr3.
-            rewrite (Hop3 m) by congruence. rewrite (Hop3 v) by congruence. cbn [eval_bin]. reflexivity.
-          + split; [|split; [|split]].
-            * rewrite val_upd_same. cbn [sum_upto]. unfold g at 2. unfold row. rewrite Lmv. reflexivity.
-            * rewrite val_upd_other by (intro X; inversion X; congruence). exact Vi3.
-            * rewrite bnd_upd. unfold s3. rewrite bnd_upd. exact Bq.
-            * intros loc N1 N2. rewrite val_upd_other by exact N2. unfold s3.
-              rewrite val_upd_other by (intro X; subst loc; apply N1; reflexivity). apply Lq; assumption.
-        - split; [apply val_upd_same|]. split; [|split; [reflexivity | intros; reflexivity]].
-          unfold s2. rewrite val_upd_other by (intro X; inversion X; congruence). exact Vi1. }
-    (* the row is complete *)
-    intros s4 [sq [[Vr [Vi [Bq Lq]]] ->]]. rewrite Hnin in Vr. unfold P.
-    assert (Hel : sum_upto g nin = matvec_elem d m v s (Z.of_nat k)) by reflexivity.
-    assert (Hl : mv_lvs d r m v s (S k) = mv_lvs d r m v s k ++ [((r, [lbr + Z.of_nat k]), matvec_elem d m v s (Z.of_nat k))]).
-    { unfold mv_lvs. rewrite zseq_snoc, map_app. reflexivity. }
-    rewrite Hl, store_all_app. cbn [store_all fold_left fst snd].
-    destruct A1 as [B1 V1]. split.
-    + rewrite !bnd_upd, Bq. unfold s2. rewrite bnd_upd. exact B1.
-    + intros loc Hn'. rewrite val_upd_other by (intro X; subst loc; apply Hn'; right; left; reflexivity).
-      rewrite val_upd. destruct (loc_eq_dec loc (r, [lbr + Z.of_nat k])) as [->|Nl].
-      * rewrite <- Hel, <- Vr. unfold row. rewrite Lrm. reflexivity.
-      * rewrite Lq; [| intro X; apply Hn'; right; left; symmetry; exact X | unfold row; rewrite <- Lrm; exact Nl].
-        unfold s2. rewrite val_upd_other by (unfold row; rewrite <- Lrm; exact Nl). apply V1. exact Hn'.
+    eapply hoare_conseq; [|change 4%nat with (S (S 2)); eapply (hoare_do 2 j _ _ _ _ s2 lbv ubv 1 Q); try reflexivity; [lia | |]].
+    + (* the row is complete *)
+        intros s4 [sq [[Vr [Vi [Bq Lq]]] ->]]. rewrite Hnin in Vr. unfold P.
+      assert (Hel : sum_upto g nin = matvec_elem d m v s (Z.of_nat k)) by reflexivity.
+      assert (Hl : mv_lvs d r m v s (S k) = mv_lvs d r m v s k ++ [((r, [lbr + Z.of_nat k]), matvec_elem d m v s (Z.of_nat k))]).
+      { unfold mv_lvs. rewrite zseq_snoc, map_app. reflexivity. }
+      rewrite Hl, store_all_app. cbn [store_all fold_left fst snd].
+      destruct A1 as [B1 V1]. split.
+      * rewrite !bnd_upd, Bq. unfold s2. rewrite bnd_upd. exact B1.
+      * intros loc Hn'. rewrite val_upd_other by (intro X; subst loc; apply Hn'; right; left; reflexivity).
+        rewrite val_upd. destruct (loc_eq_dec loc (r, [lbr + Z.of_nat k])) as [->|Nl].
+        -- rewrite <- Hel, <- Vr. unfold row. rewrite Lrm. reflexivity.
+        -- rewrite Lq; [| intro X; apply Hn'; right; left; symmetry; exact X | unfold row; rewrite <- Lrm; exact Nl].
+          unfold s2. rewrite val_upd_other by (unfold row; rewrite <- Lrm; exact Nl). apply V1. exact Hn'.
+    + (* one product *)
+      intros q sq Hq [Vr [Vi [Bq Lq]]]. rewrite Hnin in Hq.
+      set (s3 := upd sq (j, []) (lbv + Z.of_nat q * 1)).
+      assert (Vj3 : val s3 (j, []) = lbv + Z.of_nat q) by (unfold s3; rewrite val_upd_same; lia).
+      assert (Vi3 : val s3 (i, []) = row)
+        by (unfold s3; rewrite val_upd_other by (intro X; inversion X; congruence); exact Vi).
+      assert (Vr3 : val s3 (r, [row]) = sum_upto g q)
+        by (unfold s3; rewrite val_upd_other by (intro X; inversion X; congruence); exact Vr).
+      assert (Hop3 : forall (a : name) ix, a <> r -> a <> i -> a <> j -> val s3 (a, ix) = val s (a, ix)).
+      { intros a ix N1 N2 N3. unfold s3. rewrite val_upd_other by (intro X; inversion X; congruence).
+        rewrite Lq; [| cbn [fst]; congruence | intro X; inversion X; congruence].
+        unfold s2. rewrite val_upd_other by (intro X; inversion X; congruence). apply Hop; assumption. }
+      eapply hoare_mono; [|eapply hoare_assign]; [lia | cbn [map eval opt_all]; rewrite Vi3; reflexivity | |].
+      * cbn [eval map opt_all]. rewrite Vi3, Vj3. cbn [opt_all]. rewrite Vr3.
+        rewrite (Hop3 m) by congruence. rewrite (Hop3 v) by congruence. cbn [eval_bin]. reflexivity.
+      * split; [|split; [|split]].
+        -- rewrite val_upd_same. cbn [sum_upto]. f_equal. unfold g, row. rewrite <- Lmv. reflexivity.
+        -- rewrite val_upd_other by (intro X; inversion X; congruence). exact Vi3.
+        -- rewrite bnd_upd. unfold s3. rewrite bnd_upd. exact Bq.
+        -- intros loc N1 N2. rewrite val_upd_other by exact N2. unfold s3.
+          rewrite val_upd_other by (intro X; subst loc; apply N1; reflexivity). apply Lq; assumption.
+    + split; [apply val_upd_same|]. split; [|split; [reflexivity | intros; reflexivity]].
+      unfold s2. rewrite val_upd_other by (intro X; inversion X; congruence). exact Vi1.
   - apply agree_refl.
 Qed.
 
